@@ -227,9 +227,6 @@ func MergeErrors(err, other error) error {
 	}
 	e := asError(err)
 	o := asError(other)
-	if e.Name == "error" {
-		e.Name = o.Name
-	}
 
 	// Combine error lineage. We only ever put original errors into the history slice, so we
 	// don't need to worry about gaining intermediate merges.
@@ -238,6 +235,9 @@ func MergeErrors(err, other error) error {
 	e.history = append(e.History(), o.History()...)
 	e.err = errors.Join(e.err, o.err)
 
+	if e.Name == "error" {
+		e.Name = o.Name
+	}
 	e.Message = e.Message + "; " + o.Message
 	e.Timeout = e.Timeout && o.Timeout
 	e.Temporary = e.Temporary && o.Temporary
@@ -252,7 +252,10 @@ func (e *ServiceError) History() []*ServiceError {
 		return e.history
 	}
 
-	return []*ServiceError{e}
+	// Return a snapshot so that merging another error into e later on does
+	// not alter the entry recorded for e in the history.
+	snapshot := *e
+	return []*ServiceError{&snapshot}
 }
 
 // Error returns the error message.
